@@ -49,14 +49,14 @@ namespace AIToolbox::POMDP {
         do {
             --i;
 
-            std::swap(ubV.first[i], ubV.first.back());
-            std::swap(ubV.second[i], ubV.second.back());
+            // Take the belief out *in place*: fibQ's rows are indexed like
+            // ubV, and they are compacted in order below, so the order of
+            // the beliefs we keep must not change.
+            auto belief = std::move(ubV.first[i]);
+            auto value = ubV.second[i];
 
-            auto belief = std::move(ubV.first.back());
-            auto value = ubV.second.back();
-
-            ubV.first.pop_back();
-            ubV.second.pop_back();
+            ubV.first.erase(std::begin(ubV.first) + i);
+            ubV.second.erase(std::begin(ubV.second) + i);
 
             const auto [v, dist] = LPInterpolation(belief, ubQ, ubV);
             (void)dist;
@@ -64,14 +64,9 @@ namespace AIToolbox::POMDP {
             if (value >= v - tolerance_) {
                 toRemove.push_back(i);
             } else {
-                // Unpop and unswap, since we need to keep the order consistent
-                // (fibQ depends on it). This could be done with a couple less
-                // moves but like this it's more clear.
-                ubV.first.emplace_back(std::move(belief));
-                ubV.second.emplace_back(value);
-
-                std::swap(ubV.first[i], ubV.first.back());
-                std::swap(ubV.second[i], ubV.second.back());
+                // Put it back where it was.
+                ubV.first.insert(std::begin(ubV.first) + i, std::move(belief));
+                ubV.second.insert(std::begin(ubV.second) + i, value);
             }
         } while (i != 0 && ubV.first.size() > 1);
         // If all beliefs are useful, we're done.
